@@ -202,8 +202,6 @@ int __wrap_pthread_create(pthread_t *t, const pthread_attr_t *a, void *(*fn)(voi
 }
 
 #include <sys/wait.h>
-#include <poll.h>
-#include <sys/ioctl.h>
 #include <sys/syscall.h>
 #include <fcntl.h>
 /* raw system calls: the harness's own look at /proc must not pass through the libc wrappers that number and
@@ -283,25 +281,6 @@ int __wrap_epoll_wait(int epfd, struct epoll_event *events, int maxevents, int t
         if (ready != 0) return ready;
         if (timer_armed) {
             /* nothing is ready: time jumps to the armed timer */
-            if (getenv("VERIF_VT_DEBUG")) {
-                int n = kid_n; char path[64], st[512];
-                FILE *dbg = fopen(getenv("VERIF_VT_DEBUG"), "a");
-                if (!dbg) dbg = stderr;
-                fprintf(dbg, "[vt] pid %d jump by %lld ms, kids=%d live_threads=%d max_spins=%d\n",
-                        (int) getpid(), (long long)((timer_when_ns - vnow_ns) / 1000000), n, live_threads, max_spins);
-                for (int i = 0; i < n && i < 8; i++) {
-                    snprintf(path, sizeof path, "/proc/%d/stat", kid_pids[i]);
-                    int r = raw_read_file(path, st, sizeof st);
-                    fprintf(dbg, "[vt]  kid %d pid=%d read=%d errno=%d %s\n", i, kid_pids[i], r, errno, r > 0 ? st : "");
-                }
-                for (int fd = 3; fd < 24; fd++) {
-                    int avail = -1; struct pollfd pf = { fd, POLLIN | POLLOUT, 0 };
-                    int ir = ioctl(fd, FIONREAD, &avail);
-                    int pr = poll(&pf, 1, 0);
-                    if (ir == 0 || pr > 0) fprintf(dbg, "[vt]  fd %d fionread=%d(%d) poll=%d revents=0x%x\n", fd, avail, ir, pr, pf.revents);
-                }
-                if (dbg != stderr) fclose(dbg);
-            }
             vtime_advance_to(timer_when_ns);
             timer_armed = 0;
             vt_jumps++;
